@@ -313,7 +313,26 @@ package plush
 //@ errprop
 //@ assigns c.ctx, c.curStmt, mapsof("map[string]interface{}"), fresh
 
+//@ pred arithop(op string) = op != "&&" && op != "||"
+// C06 dispatch: lv / rv are the evaluated operands (ghosts bound when the two evalExpression calls return).
 //@ func (c *compiler) evalInfixExpression
+//@ ghost lv = callresult after evalExpression#1
+//@ ghost lverr = callresult1 after evalExpression#1
+//@ ghost rv = callresult after evalExpression#2
+//@ ghost rverr = callresult1 after evalExpression#2
+//@ ensures andshort: node.Operator == "&&" && lverr == nil && !truthy(lv) ==> err == nil && result == box(false)
+//@ ensures orshort: node.Operator == "||" && lverr == nil && truthy(lv) ==> err == nil && result == box(true)
+//@ ensures andfull: node.Operator == "&&" && lverr == nil && truthy(lv) && rverr == nil ==> err == nil && result == box(truthy(rv))
+//@ ensures orfull: node.Operator == "||" && lverr == nil && !truthy(lv) && rverr == nil ==> err == nil && result == box(truthy(rv))
+//@ ensures intadd: node.Operator == "+" && lverr == nil && rverr == nil && is(lv, "int") && is(rv, "int") ==> err == nil && result == box(wrap(unbox(lv, "int") + unbox(rv, "int")))
+//@ ensures intsub: node.Operator == "-" && lverr == nil && rverr == nil && is(lv, "int") && is(rv, "int") ==> err == nil && result == box(wrap(unbox(lv, "int") - unbox(rv, "int")))
+//@ ensures intmul: node.Operator == "*" && lverr == nil && rverr == nil && is(lv, "int") && is(rv, "int") ==> err == nil && result == box(wrap(unbox(lv, "int") * unbox(rv, "int")))
+//@ ensures intdiv: node.Operator == "/" && lverr == nil && rverr == nil && is(lv, "int") && is(rv, "int") && unbox(rv, "int") != 0 ==> err == nil && result == box(wrap(unbox(lv, "int") / unbox(rv, "int")))
+//@ ensures intdiv0: node.Operator == "/" && lverr == nil && rverr == nil && is(lv, "int") && is(rv, "int") && unbox(rv, "int") == 0 ==> err != nil
+//@ ensures intlt: node.Operator == "<" && lverr == nil && rverr == nil && is(lv, "int") && is(rv, "int") ==> err == nil && result == box(unbox(lv, "int") < unbox(rv, "int"))
+//@ ensures strcat: node.Operator == "+" && lverr == nil && rverr == nil && is(lv, "string") && rv != nil ==> err == nil && result == box(unbox(lv, "string") + sprint(rv))
+//@ ensures mismatch: arithop(node.Operator) && lverr == nil && rverr == nil && lv != nil && rv != nil && ((is(lv, "int") && !is(rv, "int")) || (is(lv, "float64") && !is(rv, "float64")) || (is(lv, "int64") && !is(rv, "int64"))) ==> err != nil
+//@ ensures nileq: node.Operator == "==" && lverr == nil && rverr == nil && (lv == nil || rv == nil) ==> err == nil && result == box(lv == rv)
 //@ ensures ufn: is(result, "*userFunction") ==> pay(result) != 0
 //@ requires node != nil
 //@ requires cctx: cctx(c)
